@@ -67,6 +67,28 @@ SUBS = [
     (r"\b16\b", "10", "const"),
     (r"\.take\(\)", ".clone()", "method"),
     (r"\?;$", ".ok();", "err"),
+    # second round
+    (r"\btrue\b", "false", "bool"), (r"\bfalse\b", "true", "bool"),
+    (r"ParseError::InvalidEscape", "ParseError::InvalidQualifier", "errkind"),
+    (r"ParseError::InvalidQualifier", "ParseError::InvalidEscape", "errkind"),
+    (r"ParseError::InvalidPackageType", "ParseError::InvalidEscape", "errkind"),
+    (r"ParseError::UnsupportedUrlScheme", "ParseError::InvalidPackageType", "errkind"),
+    (r"PurlField::Name\b", "PurlField::Namespace", "errkind"), (r"PurlField::Namespace\b", "PurlField::Name", "errkind"),
+    (r"PurlField::PackageType", "PurlField::Name", "errkind"),
+    (r"PackageError::UnsupportedType", "PackageError::Parse(ParseError::InvalidPackageType)", "errkind"),
+    (r"\.to_lowercase\(\)", ".to_ascii_lowercase()", "method"),
+    (r"\.to_ascii_lowercase\(\)", ".to_lowercase()", "method"),
+    (r"PackageType::NuGet", "PackageType::PyPI", "const"), (r"PackageType::PyPI", "PackageType::NuGet", "const"),
+    (r"PackageType::Maven", "PackageType::Gem", "const"), (r"PackageType::Npm", "PackageType::Golang", "const"),
+    (r"PackageType::Golang", "PackageType::Cargo", "const"),
+    (r"\bself\b(.*)\bother\b", r"other\1self", "swap"),
+    (r"\.chars\(\)\.all\(", ".chars().any(", "method"), (r"\.any\(", ".all(", "method"),
+    (r"\.is_some\(\)", ".is_none()", "method"), (r"\.is_none\(\)", ".is_some()", "method"),
+    (r"\.first\(\)", ".last()", "method"), (r"\.last\(\)", ".first()", "method"),
+    (r"\.next\(\)", ".last()", "method"), (r"\.next_back\(\)", ".next()", "method"),
+    (r"Ok\(\(\)\)", "Err(ParseError::InvalidQualifier)", "const"),
+    (r"\.map\(\|s\| &\*\*s\)", "", None),
+    (r"\bSome\(", "None.or(Some(", None),
 ]
 
 
@@ -136,7 +158,14 @@ def apply_mut(root, m):
 def survive(workers):
     os.makedirs(OUT, exist_ok=True)
     muts = candidates()
-    print("%d candidate mutants" % len(muts))
+    known = {}
+    try:
+        known = {m["id"]: m["status"] for m in json.load(open(os.path.join(OUT, "candidates.json")))}
+    except (OSError, ValueError):
+        pass
+    allm = muts
+    muts = [m for m in allm if m["id"] not in known]
+    print("%d candidate mutants, %d new" % (len(allm), len(muts)))
     wts = []
     for k in range(workers):
         wt = "/tmp/mw-%d" % k
@@ -177,7 +206,7 @@ def survive(workers):
             sh("git -C %s worktree remove --force %s" % (REPO, wt))
             shutil.rmtree(wt, ignore_errors=True)
         sh("git -C %s worktree prune" % REPO)
-    surv = [dict(m, status=results.get(m["id"])) for m in muts]
+    surv = [dict(m, status=results.get(m["id"], known.get(m["id"]))) for m in allm]
     json.dump(surv, open(os.path.join(OUT, "candidates.json"), "w"), indent=1, ensure_ascii=False)
     s = [m for m in surv if m["status"] == "survived"]
     json.dump(s, open(os.path.join(OUT, "survivors.json"), "w"), indent=1, ensure_ascii=False)
